@@ -109,6 +109,24 @@ struct Checker {
 			if (verify) { if (n.loaded) complaints.push_back(path + ": absent key reported as loaded"); else if (n.k != sv::Arr && n.k != sv::Obj && !canaryIntact(n)) complaints.push_back(path + ": absent key changed the target to " + n.toVal().dump()); }
 			return;
 		}
+		if (n.k == sv::Obj && n.scripted && doc->k == Val::Map) {
+			if (verify && !n.loaded) { complaints.push_back(path + ": object reported not loaded"); return; }
+			for (size_t qi = 0; qi < n.script.size(); ++qi) {
+				const sv::Req& q = n.script[qi];
+				if (q.unsupported) continue;
+				std::string qp = path + "#" + std::to_string(qi);
+				if (q.kind == sv::Req::VisitKeys) {
+					if (!verify) continue;
+					std::vector<std::string> exp; for (auto& kv : doc->m) exp.push_back(kv.first.dump());
+					if (exp != q.visited) { std::string g; for (auto& v : q.visited) g += v + ","; complaints.push_back(qp + ":VisitKeys enumerated [" + g + "] for " + doc->dump()); }
+					continue;
+				}
+				const Val* found = nullptr; Val kv = q.key.toVal();
+				for (auto& e : doc->m) if (sameScalar(e.first, kv)) { found = &e.second; break; }
+				walk(found, q.target[0], qp + ":get(" + q.key.str() + ")", verify);
+			}
+			return;
+		}
 		if (n.k == sv::Arr || n.k == sv::Obj) {
 			bool kindOk = (n.k == sv::Arr && doc->k == Val::Arr) || (n.k == sv::Obj && doc->k == Val::Map);
 			if (!kindOk) {
